@@ -67,7 +67,7 @@ def enumerate_cases(tier: str, seed: int) -> list[dict[str, Any]]:
         cases.append({"key": f"modes:{name}", "src": "modes", "name": name, "cost": 2.0})
     for name, seq in SEQUENCES:
         cases.append({"key": f"seq:{name}", "src": "seq", "name": name, "cost": 3.0})
-    for name in ("missing_directory", "pathlike_path", "ir_mutation_after_return", "relative_path"):
+    for name in ("missing_directory", "pathlike_path", "ir_mutation_after_return", "relative_path", "spelling_Web", "spelling_WEB_spaces", "spelling_Standard", "spelling_return_mode_File", "spelling_web_after_standard"):
         cases.append({"key": f"misc:{name}", "src": "misc", "name": name, "cost": 1.0})
     if tier == "thorough":
         from vlib import registry
@@ -261,6 +261,26 @@ def run_case(case: dict[str, Any], tier: str, seed: int) -> dict[str, Any]:
                 path = pathlib.Path(d) / "pl" / "m.onnx"
                 ret = to_onnx(fn, inputs, return_mode="file", output_path=path)
                 ok = _normalise(_load(str(path))) == expected and isinstance(ret, str)
+            elif name.startswith("spelling_"):
+                path = os.path.join(d, "sp", "m.onnx")
+                if name == "spelling_web_after_standard":
+                    to_onnx(fn, inputs, return_mode="file", output_path=path)
+                    small = P["matmul_8_s0"]
+                    fn, inputs = _fn_of(small), _spec_inputs(small)
+                    expected = _normalise(to_onnx(fn, inputs))
+                kwm = {"spelling_Web": dict(return_mode="file", export_mode="Web"), "spelling_WEB_spaces": dict(return_mode="file", export_mode=" WEB "),
+                       "spelling_Standard": dict(return_mode="file", export_mode="Standard"), "spelling_return_mode_File": dict(return_mode=" File ", export_mode="web"),
+                       "spelling_web_after_standard": dict(return_mode="file", export_mode="Web")}[name]
+                try:
+                    to_onnx(fn, inputs, output_path=path, **kwm)
+                    listing = sorted(os.listdir(os.path.dirname(path)))
+                    raw = onnx.load(path, load_external_data=False)
+                    ok = _normalise(_load(path)) == expected
+                    if "web" in str(kwm["export_mode"]).lower():
+                        ok = ok and listing == ["m.onnx"] and not any(len(t.external_data) for _, t in modelwalk.iter_all_tensors(raw))
+                except ValueError:
+                    ok = True  # an explicit rejection of the spelling is fine
+                    rec["obs"]["spelling_rejected"] = 1
             elif name == "relative_path":
                 os.chdir(d)
                 ret = to_onnx(fn, inputs, return_mode="file", output_path="rel.onnx")
